@@ -65,7 +65,7 @@ Record estate := { e_fitted : bool; e_fh : option (list Z); e_log : list attr }.
 
 (* a non-Series `y` handed to a splitter is used as the index itself *)
 Definition s_as_index (s : series) : ixdesc :=
-  {| ik := match cont (sd s) with CArray1 => KNdarray | _ => KOther end;
+  {| ik := match cont (sd s) with CArray1 => KNdarray | _ => KOtherIndex end;
      ilen := slen (sd s); isorted := ssorted (sd s); ilab := slab s |}.
 Definition split_y_ok (y : series) : bool :=
   time_index_ok false None (if s_isinstance y [TySeries] then s_index y else s_as_index y).
